@@ -379,6 +379,9 @@ class Tensor:
     def double(self):
         return self.to(dtype=float64)
 
+    def long(self):
+        return self.to(dtype=int64)
+
     def is_contiguous(self):
         return True if self.a.flags['C_CONTIGUOUS'] else False
 
@@ -1158,6 +1161,38 @@ def zeros(*shape, dtype=None, device=None, requires_grad=False):
 
 def empty(*shape, dtype=None, device=None):
     return zeros(*shape, dtype=dtype)
+
+
+def empty_like(t, dtype=None, device=None):
+    return _full(t.a.shape, 0, dtype or t.dtype)
+
+
+def as_tensor(data, dtype=None, device=None):
+    if _isinstance(data, Tensor):
+        return data if dtype is None or dtype is data.dtype else _cast(data, dtype)
+    return tensor(data, dtype=dtype)
+
+
+def remainder(t, other):
+    # python / torch convention: the result has the sign of the divisor
+    o = other.a if _isinstance(other, Tensor) else _objarr(_pyify(other))
+    a = _np.frompyfunc(lambda x, y: x % y, 2, 1)(t.a, o)
+    return _mk(a if _isinstance(a, _np.ndarray) else _objarr(a), t.dtype, (t,))
+
+
+def unique(t, sorted=True, return_inverse=False, return_counts=False, dim=None):  # noqa: A002
+    """integer tensors only; symbolic entries are concretised (the explorer forks over their feasible values)"""
+    if dim is not None or return_counts or t.dtype.cat != 1:
+        unsupported('torch.unique of this form')
+    vals = []
+    for v in t.a.flat:
+        vals.append(v.concretize() if _isinstance(v, SymInt) else int(v))
+    u = _builtins.sorted(set(vals))
+    ut = Tensor(_objarr(u) if u else _np.empty((0,), dtype=object), t.dtype)
+    if not return_inverse:
+        return ut
+    inv = _objarr([u.index(v) for v in vals]).reshape(t.a.shape) if vals else _np.empty(t.a.shape, dtype=object)
+    return ut, Tensor(inv, int64)
 
 
 def ones_like(t, dtype=None, device=None):
